@@ -317,6 +317,23 @@ def alto_trace(case):
     page, lines = build_page(case)
     rec = {"W": case["W"], "H": case["H"], "minconf": case["minconf"], "blocks": [], "outcome": "ok",
            "obs": EMPTY_OBS, "imp_outcome": "none", "imp": [], "confs": [], "sure": [], "pre": []}
+    # History: for every other case the page object was exported once BEFORE, when its lines still held another transcription
+    # (an uncorrected text with the words in another order and one word less) and the same logits; the text was then corrected in
+    # place and the page is exported again - the recorded export.  It must speak about what the page holds now.
+    if (case["W"] + case["minconf"] // 1000 + sum(len(ln["concrete"]) for blk in case["blocks"] for ln in blk["lines"])) % 2 == 0:
+        final = [ln.transcription for ln in lines]
+        for ln in lines:
+            if ln.transcription:
+                words = ln.transcription.split()
+                ln.transcription = " ".join(reversed(words[:-1] if len(words) > 1 else words)) or ln.transcription
+        try:
+            with guarded(60):
+                page.to_altoxml_string(min_line_confidence=0)
+        except Exception:
+            pass
+        for ln, text in zip(lines, final):
+            ln.transcription = text
+            ln.transcription_confidence = None
     # sure[tag] (millionths, -1 = nothing known): a lower bound of the line's confidence that holds by construction - alignable
     # posteriors with every character > 0.99 ("peaky", "window") or with label 0.8 against a strongest competitor 0.1 ("mid"):
     # a line whose bound is at or above the requested threshold must not be dropped.
